@@ -170,6 +170,8 @@ func Or(a ...bool) bool {
 func Not(a bool) bool        { return !a }
 func Implies(a, b bool) bool { return !a || b }
 
+// Unwind raises the loop bound of repository code for the rest of the path (symbolic run only).
+func Unwind(n int)                  {}
 func MapOrder(symbolic bool)        {}
 func Sched(budget int, explore bool) {}
 func SelectChoice(on bool)          {}
